@@ -20,9 +20,12 @@ static LOCK: AtomicBool = AtomicBool::new(false);
 pub static ODD: AtomicBool = AtomicBool::new(false);
 pub static OVERFLOW: AtomicUsize = AtomicUsize::new(0);
 thread_local! { static TRACK: Cell<bool> = const { Cell::new(false) }; }
+thread_local! { static INSIDE: Cell<bool> = const { Cell::new(false) }; }
 struct Guard;
-fn lock() -> Guard { while LOCK.compare_exchange_weak(false, true, Ordering::Acquire, Ordering::Relaxed).is_err() { std::hint::spin_loop(); } Guard }
-impl Drop for Guard { fn drop(&mut self) { LOCK.store(false, Ordering::Release); } }
+/// the ledger's own bookkeeping may allocate (a Vec of ids): while a thread holds the lock its allocator calls pass straight through
+fn inside() -> bool { INSIDE.try_with(|t| t.get()).unwrap_or(true) }
+fn lock() -> Guard { while LOCK.compare_exchange_weak(false, true, Ordering::Acquire, Ordering::Relaxed).is_err() { std::hint::spin_loop(); } let _ = INSIDE.try_with(|t| t.set(true)); Guard }
+impl Drop for Guard { fn drop(&mut self) { let _ = INSIDE.try_with(|t| t.set(false)); LOCK.store(false, Ordering::Release); } }
 fn tracking() -> bool { TRACK.try_with(|t| t.get()).unwrap_or(false) && !std::thread::panicking() }
 /// run `f` as a tracked section (restores the flag also when unwinding)
 pub fn tr<R>(f: impl FnOnce() -> R) -> R {
@@ -53,7 +56,7 @@ unsafe fn alloc_buf(t: &mut Tab, size: usize) -> (*mut u8, u32) {
 }
 unsafe impl GlobalAlloc for Ledger {
     unsafe fn alloc(&self, l: Layout) -> *mut u8 {
-        if !tracking() || l.size() == 0 { return System.alloc(l); }
+        if inside() || !tracking() || l.size() == 0 { return System.alloc(l); }
         let _g = lock(); let t = tab();
         if l.align() == 1 {
             let (p, id) = alloc_buf(t, l.size()); if !p.is_null() { push_ev(t, Ev::Alloc(id, l.size())); } p
@@ -65,6 +68,7 @@ unsafe impl GlobalAlloc for Ledger {
     }
     unsafe fn alloc_zeroed(&self, l: Layout) -> *mut u8 { let p = self.alloc(l); if !p.is_null() { std::ptr::write_bytes(p, 0, l.size()); } p }
     unsafe fn dealloc(&self, p: *mut u8, l: Layout) {
+        if inside() { return System.dealloc(p, l); }
         let _g = lock(); let t = tab();
         match find(t, p as usize) {
             None => { drop(_g); System.dealloc(p, l) }
@@ -79,6 +83,7 @@ unsafe impl GlobalAlloc for Ledger {
         }
     }
     unsafe fn realloc(&self, p: *mut u8, l: Layout, new_size: usize) -> *mut u8 {
+        if inside() { return System.realloc(p, l, new_size); }
         let g = lock(); let t = tab();
         match find(t, p as usize) {
             None => { drop(g); System.realloc(p, l, new_size) }
